@@ -18,9 +18,6 @@ Known findings on the pinned tree (tagged, not silenced):
 * C02-cmap14-default-run-over-256: cmap_format_14.compile puts a whole run of consecutive default
   UVS code points into one range whose additionalCount is a uint8; a run of > 256 raises struct.error
   instead of being split.
-* C02-cmap2-single-byte-only-lost: cmap_format_2.compile only points the subHeaderKeys of single-byte
-  codes at subheader 0 when a two-byte lead byte follows; a map with single-byte codes only compiles to
-  a table that maps nothing (silent loss).
 * C02-composite-bounds-skip-point-sized-component: Glyph.tryRecalcBoundsComposite treats a component
   whose own box has zero width and height (a one-point glyph) as empty, so the composite's header box
   (and everything HarfBuzz derives from it) misses that point; the slow path includes it.
@@ -217,8 +214,7 @@ def cmap_every_format_roundtrip_and_harfbuzz(tier, rnd):
                 r.fail("%s: compiled directory does not hold one format-%d subtable: %s" % (label, fmt, _parse_cmap_directory(raw)))
             if got != mapping:
                 diff = sorted(set(got.items()) ^ set(mapping.items()))[:4]
-                kid = "C02-cmap2-single-byte-only-lost" if fmt == 2 and max(mapping) < 256 and set(got.items()) <= set(mapping.items()) else None
-                r.fail("%s: decompile(compile(map)) != map, first differences %s" % (label, diff), known_id=kid)
+                r.fail("%s: decompile(compile(map)) != map, first differences %s" % (label, diff))
             if fmt in (0, 4, 6, 12, 13):
                 hb, face, hfont = _hb(data)
                 probe = sorted(mapping) if len(mapping) < 3000 else rnd.sample(sorted(mapping), 3000)
